@@ -118,7 +118,7 @@ Proof.
 Qed.
 
 Corollary monitor_accept : forall t,
-  fst (monitor t) = [] /\ balanced (snd (monitor t)) = true <-> accept t = true.
+  fst (monitor t) = [] /\ balanced (snd (monitor t)) && complete (snd (monitor t)) = true <-> accept t = true.
 Proof.
   intros t. unfold monitor, accept. split.
   - intros [Hm Hb]. apply monitor_sound in Hm. destruct Hm as [s Hs].
@@ -190,10 +190,10 @@ Proof.
   intros st k f c Hne. rewrite cur_on. apply N.eqb_neq in Hne. rewrite Hne. reflexivity.
 Qed.
 
-Lemma cur_add : forall st k c fs n b,
-  lookup k (canv st) = None -> cur (mkp ((k, fresh) :: canv st) fs n b) c = cur st c.
+Lemma cur_add : forall st k c fs n b pe di,
+  lookup k (canv st) = None -> cur (mkp ((k, fresh) :: canv st) fs n b pe di) c = cur st c.
 Proof.
-  intros st k c fs n b Hnone. unfold cur. cbn [canv lookup].
+  intros st k c fs n b pe di Hnone. unfold cur. cbn [canv lookup].
   destruct (N.eqb k c) eqn:E; [|reflexivity].
   apply N.eqb_eq in E. subst c. rewrite Hnone. reflexivity.
 Qed.
@@ -210,6 +210,15 @@ Proof.
   intros st k g a c. cbn [effect]. destruct (lookup g (canv st)) eqn:E; [reflexivity|].
   apply cur_add. exact E.
 Qed.
+
+Lemma cur_mark : forall st k c, cur (mark st k) c = cur st c.
+Proof. reflexivity. Qed.
+
+Lemma cur_consume : forall st g c, cur (consume st g) c = cur st c.
+Proof. reflexivity. Qed.
+
+Lemma cur_effect_opacity : forall st k g a c, cur (effect st (CDrawWithOpacity k g a)) c = cur st c.
+Proof. intros st k g a c. cbn [effect]. rewrite cur_consume. destruct (mem g (dirty st)); reflexivity. Qed.
 
 (* ------------------------------------------------------------------ *)
 (* 4. path construction precedes Paint / Clip *)
@@ -252,7 +261,8 @@ Proof.
   - (* Pop *) right. split; [reflexivity|]. cbn [effect] in Hh.
     eapply haspath_on_keep; [|exact Hh]. intros s. reflexivity.
   - (* NewGroup *) right. split; [reflexivity|]. rewrite cur_effect_newgroup in Hh. exact Hh.
-  - (* Paint *) cbn [effect] in Hh. apply haspath_on in Hh.
+  - (* DrawWithOpacity *) right. split; [reflexivity|]. rewrite cur_effect_opacity in Hh. exact Hh.
+  - (* Paint *) cbn [effect] in Hh. rewrite cur_mark in Hh. apply haspath_on in Hh.
     destruct Hh as [[_ [s Hs]]|[Hne Hh]]; [discriminate|]. right. split; assumption.
   - (* Rect *) cbn [effect] in Hh. apply haspath_on in Hh.
     destruct Hh as [[He _]|[Hne Hh]]; [left; exact He|]. right. split; [reflexivity | exact Hh].
@@ -311,29 +321,45 @@ Proof.
 Qed.
 
 (* ------------------------------------------------------------------ *)
-(* 5. AddFont precedes DrawText *)
+(* 5. AddFont precedes DrawText, on the same canvas *)
 
 Lemma fonts_effect : forall st x,
-  fonts (effect st x) = match x with CAddFont _ f => f :: fonts st | _ => fonts st end.
+  fonts (effect st x) = match x with CAddFont c f => (c, f) :: fonts st | _ => fonts st end.
 Proof.
-  intros st x. destruct x; cbn [effect on fonts]; try reflexivity.
+  intros st x. destruct x; cbn [effect on mark consume fonts]; try reflexivity.
   - destruct (lookup c (canv st)); reflexivity.
   - destruct (lookup g (canv st)); reflexivity.
+  - destruct (mem g (dirty st)); reflexivity.
+Qed.
+
+Lemma pmem_cons : forall a b x y l,
+  pmem a b ((x, y) :: l) = (N.eqb x a && N.eqb y b) || pmem a b l.
+Proof. reflexivity. Qed.
+
+Lemma pmem_in : forall a b l, pmem a b l = true <-> In (a, b) l.
+Proof.
+  intros a b. induction l as [|[x y] l IH].
+  - split; [discriminate | intros []].
+  - rewrite pmem_cons, orb_true_iff, andb_true_iff, !N.eqb_eq, IH. cbn [In]. split.
+    + intros [[Hx Hy]|Hin]; [left; subst; reflexivity | right; exact Hin].
+    + intros [Heq|Hin]; [left; injection Heq as Hx Hy; split; assumption | right; exact Hin].
 Qed.
 
 Definition font_inv (t : list call) (st : pstate) : Prop :=
-  forall f, mem f (fonts st) = true -> exists c', In (CAddFont c' f) t.
+  forall c f, pmem c f (fonts st) = true -> In (CAddFont c f) t.
 
 Lemma font_inv_step : forall t st x st',
   font_inv t st -> step st x = Some st' -> font_inv (t ++ [x]) st'.
 Proof.
   intros t st x st' Hinv Hs. apply step_some in Hs. destruct Hs as [_ Heq]. subst st'.
-  intros f Hm. rewrite fonts_effect in Hm.
-  assert (Hold : mem f (fonts st) = true -> exists c', In (CAddFont c' f) (t ++ [x])).
-  { intros Hm'. destruct (Hinv f Hm') as [c' Hin]. exists c'. apply in_or_app. left. exact Hin. }
+  intros k f Hm. rewrite fonts_effect in Hm.
+  assert (Hold : pmem k f (fonts st) = true -> In (CAddFont k f) (t ++ [x])).
+  { intros Hm'. apply in_or_app. left. apply Hinv. exact Hm'. }
   destruct x; try (apply Hold; exact Hm).
-  unfold mem in Hm. cbn [existsb] in Hm. apply orb_true_iff in Hm. destruct Hm as [He|Hm].
-  - apply N.eqb_eq in He. subst f0. exists c. apply in_or_app. right. left. reflexivity.
+  rewrite pmem_cons in Hm. apply orb_true_iff in Hm. destruct Hm as [He|Hm].
+  - apply andb_true_iff in He. destruct He as [Hc Hf].
+    apply N.eqb_eq in Hc. apply N.eqb_eq in Hf. subst c f0.
+    apply in_or_app. right. left. reflexivity.
   - apply Hold. exact Hm.
 Qed.
 
@@ -341,20 +367,27 @@ Lemma run_font_inv : forall t st, run pinit t = Some st -> font_inv t st.
 Proof.
   intros t st Hrun. change t with ([] ++ t).
   eapply (run_inv font_inv font_inv_step); [|exact Hrun].
-  intros f Hm. discriminate.
+  intros c f Hm. discriminate.
 Qed.
 
+(* every font of a DrawText received by canvas c was registered by an AddFont
+   received by the SAME canvas c earlier in the trace *)
 Theorem font_before_text : forall t1 c fs a t2 st' f,
   run pinit (t1 ++ CDrawText c fs a :: t2) = Some st' -> In f fs ->
-  exists c', In (CAddFont c' f) t1.
+  In (CAddFont c f) t1.
 Proof.
   intros t1 c fs a t2 st' f Hrun Hin. rewrite run_app in Hrun.
   destruct (run pinit t1) as [s1|] eqn:H1; [|discriminate].
   apply run_cons_some in Hrun. destruct Hrun as [Hg _].
   apply guard_zero in Hg. destruct Hg as [_ [_ [_ Hk]]]. cbn [guard_kind] in Hk.
-  destruct (forallb (fun f0 => mem f0 (fonts s1)) fs) eqn:Hall; [|discriminate].
-  rewrite forallb_forall in Hall. apply (run_font_inv _ _ H1 f). apply Hall. exact Hin.
+  destruct (forallb (fun f0 => pmem c f0 (fonts s1)) fs) eqn:Hall; [|discriminate].
+  rewrite forallb_forall in Hall. apply (run_font_inv _ _ H1 c f). apply Hall. exact Hin.
 Qed.
+
+(* a registration on another canvas does not help: the strict automaton stops *)
+Example font_on_other_canvas_rejected :
+  run pinit [CAddPage 1 (K 4); CNewGroup 1 2 (K 4); CAddFont 1 7; CDrawText 2 [7] (K 5)] = None.
+Proof. vm_compute. reflexivity. Qed.
 
 (* ------------------------------------------------------------------ *)
 (* 6. pages *)
@@ -383,10 +416,11 @@ Lemma npages_effect : forall st x, guard st x = 0 ->
   npages (effect st x) = npages st + (if is_addpage x then 1 else 0).
 Proof.
   intros st x Hg. apply guard_zero in Hg. destruct Hg as [_ [_ [_ Hk]]].
-  destruct x; cbn [effect on npages is_addpage]; try lia.
+  destruct x; cbn [effect on mark consume npages is_addpage]; try lia.
   - cbn [guard_kind] in Hk. destruct (closed st); [discriminate|].
     destruct (lookup c (canv st)); [discriminate|]. reflexivity.
   - destruct (lookup g (canv st)); cbn [npages]; lia.
+  - destruct (mem g (dirty st)); cbn [mark npages]; lia.
 Qed.
 
 Lemma pages_counted_from : forall t st st',
@@ -421,6 +455,183 @@ Proof.
   constructor; [exact Hn | eapply IH; exact Hrun].
 Qed.
 
+(* ------------------------------------------------------------------ *)
+(* 8. groups: created by NewGroup on the canvas that consumes them, consumed at
+      most once, and never abandoned with painting on them *)
+
+Definition consumes_group (g : N) (x : call) : bool :=
+  match call_group x with Some g' => N.eqb g' g | None => false end.
+
+Definition paints (k : N) (x : call) : bool :=
+  match x with
+  | CPaint c _ | CDrawText c _ _ | CDrawImage c _ | CDrawGradient c _ => N.eqb c k
+  | _ => false
+  end.
+
+Lemma pending_effect : forall st x, guard st x = 0 ->
+  pending (effect st x) =
+  match x with
+  | CNewGroup k g _ => (g, k) :: pending st
+  | _ => match call_group x with
+         | Some g => filter (fun p => negb (N.eqb (fst p) g)) (pending st)
+         | None => pending st
+         end
+  end.
+Proof.
+  intros st x Hg. apply guard_zero in Hg. destruct Hg as [_ [_ [_ Hk]]].
+  destruct x; cbn [effect on mark consume pending call_group]; try reflexivity.
+  - destruct (lookup c (canv st)); reflexivity.
+  - cbn [guard_kind] in Hk. destruct (lookup g (canv st)); [discriminate | reflexivity].
+  - destruct (mem g (dirty st)); reflexivity.
+Qed.
+
+Lemma dirty_effect_incl : forall st x k, mem k (dirty st) = true -> mem k (dirty (effect st x)) = true.
+Proof.
+  intros st x k Hm.
+  assert (Hmark : forall s j, mem k (dirty s) = true -> mem k (dirty (mark s j)) = true).
+  { intros s j H. unfold mark, mem. cbn [dirty existsb]. unfold mem in H. rewrite H. apply orb_true_r. }
+  destruct x; cbn [effect]; try exact Hm; try (apply Hmark; exact Hm).
+  - destruct (lookup c (canv st)); exact Hm.
+  - destruct (lookup g (canv st)); exact Hm.
+  - cbn [consume dirty]. destruct (mem g (dirty st)); [apply Hmark|]; exact Hm.
+Qed.
+
+Lemma dirty_effect_paints : forall st x k, paints k x = true -> mem k (dirty (effect st x)) = true.
+Proof.
+  intros st x k Hp.
+  destruct x; cbn [paints] in Hp; try discriminate; apply N.eqb_eq in Hp; subst k;
+    cbn [effect mark dirty]; unfold mem; cbn [existsb]; rewrite N.eqb_refl; reflexivity.
+Qed.
+
+Definition pend_inv (t : list call) (st : pstate) : Prop :=
+  forall g c, In (g, c) (pending st) ->
+  exists u a v, t = u ++ CNewGroup c g a :: v /\
+                forallb (fun z => negb (consumes_group g z)) v = true.
+
+Lemma pend_inv_step : forall t st x st',
+  pend_inv t st -> step st x = Some st' -> pend_inv (t ++ [x]) st'.
+Proof.
+  intros t st x st' Hinv Hs. apply step_some in Hs. destruct Hs as [Hg Heq]. subst st'.
+  intros g c Hin. rewrite (pending_effect _ _ Hg) in Hin.
+  assert (Hold : In (g, c) (pending st) -> consumes_group g x = false ->
+                 exists u a v, t ++ [x] = u ++ CNewGroup c g a :: v /\
+                               forallb (fun z => negb (consumes_group g z)) v = true).
+  { intros Hp Hnc. destruct (Hinv g c Hp) as [u [a [v [Ht Hv]]]].
+    exists u, a, (v ++ [x]). split.
+    - rewrite Ht, <- app_assoc. reflexivity.
+    - rewrite forallb_app, Hv. cbn [forallb]. rewrite Hnc. reflexivity. }
+  assert (Hfilter : forall g', call_group x = Some g' ->
+            In (g, c) (filter (fun p => negb (N.eqb (fst p) g')) (pending st)) ->
+            exists u a v, t ++ [x] = u ++ CNewGroup c g a :: v /\
+                          forallb (fun z => negb (consumes_group g z)) v = true).
+  { intros g' Hcg Hf. apply filter_In in Hf. destruct Hf as [Hp Hne]. cbn [fst] in Hne.
+    apply Hold; [exact Hp|]. unfold consumes_group. rewrite Hcg.
+    apply negb_true_iff in Hne. rewrite N.eqb_sym. exact Hne. }
+  destruct x; cbn [call_group] in Hin, Hfilter;
+    try (apply Hold; [exact Hin | reflexivity]);
+    try (apply (Hfilter _ eq_refl); exact Hin).
+  (* NewGroup *)
+  destruct Hin as [Heq|Hin].
+  - injection Heq as Hg' Hc'. subst g0 c0. exists t, a, []. split; reflexivity.
+  - apply Hold; [exact Hin | reflexivity].
+Qed.
+
+Lemma run_pend_inv : forall t st, run pinit t = Some st -> pend_inv t st.
+Proof.
+  intros t st Hrun. change t with ([] ++ t).
+  eapply (run_inv pend_inv pend_inv_step); [|exact Hrun].
+  intros g c Hin. destruct Hin.
+Qed.
+
+(* a group handed to DrawWithOpacity / SetColorPattern / SetAlphaMask of canvas c
+   was created by c.NewGroup and has not been consumed in between *)
+Theorem group_before_consume : forall t1 x t2 st' c g,
+  call_canvas x = Some c -> call_group x = Some g ->
+  run pinit (t1 ++ x :: t2) = Some st' ->
+  exists u a v, t1 = u ++ CNewGroup c g a :: v /\
+                forallb (fun z => negb (consumes_group g z)) v = true.
+Proof.
+  intros t1 x t2 st' c g Hc Hcg Hrun. rewrite run_app in Hrun.
+  destruct (run pinit t1) as [s1|] eqn:H1; [|discriminate].
+  apply run_cons_some in Hrun. destruct Hrun as [Hg _].
+  apply guard_zero in Hg. destruct Hg as [_ [_ [_ Hk]]].
+  apply (run_pend_inv _ _ H1 g c). apply pmem_in.
+  destruct x; cbn [call_group call_canvas] in Hcg, Hc; try discriminate;
+    injection Hcg as Hcg; injection Hc as Hc; subst; cbn [guard_kind] in Hk;
+    destruct (pmem g c (pending s1)); [reflexivity | discriminate | reflexivity | discriminate | reflexivity | discriminate].
+Qed.
+
+
+(* rule 13: in an accepted trace no painting is lost in an abandoned group *)
+Definition dirty_inv (t : list call) (st : pstate) : Prop :=
+  forall x k, In x t -> paints k x = true -> mem k (dirty st) = true.
+
+Lemma dirty_inv_step : forall t st x st',
+  dirty_inv t st -> step st x = Some st' -> dirty_inv (t ++ [x]) st'.
+Proof.
+  intros t st x st' Hinv Hs. apply step_some in Hs. destruct Hs as [_ Heq]. subst st'.
+  intros y k Hin Hp. apply in_app_or in Hin. destruct Hin as [Hin|[Heq|[]]].
+  - apply dirty_effect_incl. eapply Hinv; eassumption.
+  - subst y. apply dirty_effect_paints. exact Hp.
+Qed.
+
+Definition created_inv (t : list call) (st : pstate) : Prop :=
+  forall c g a, In (CNewGroup c g a) t ->
+  (exists y, In y t /\ call_group y = Some g) \/ (exists c', In (g, c') (pending st)).
+
+Lemma created_inv_step : forall t st x st',
+  created_inv t st -> step st x = Some st' -> created_inv (t ++ [x]) st'.
+Proof.
+  intros t st x st' Hinv Hs. apply step_some in Hs. destruct Hs as [Hg Heq]. subst st'.
+  intros c g a Hin. apply in_app_or in Hin. destruct Hin as [Hin|[Heq|[]]].
+  - destruct (Hinv c g a Hin) as [[y [Hy Hcg]]|[c' Hp]].
+    + left. exists y. split; [apply in_or_app; left; exact Hy | exact Hcg].
+    + destruct (consumes_group g x) eqn:Hcons.
+      * left. exists x. split; [apply in_or_app; right; left; reflexivity|].
+        unfold consumes_group in Hcons. destruct (call_group x) as [g'|]; [|discriminate].
+        apply N.eqb_eq in Hcons. subst g'. reflexivity.
+      * right. exists c'. rewrite (pending_effect _ _ Hg).
+        unfold consumes_group in Hcons.
+        destruct x; cbn [call_group] in Hcons |- *; try exact Hp;
+          try (apply filter_In; split; [exact Hp|]; cbn [fst];
+               rewrite N.eqb_sym, Hcons; reflexivity).
+        right. exact Hp.
+  - subst x. right. exists c. rewrite (pending_effect _ _ Hg). left. reflexivity.
+Qed.
+
+Theorem accepted_painted_groups_consumed : forall t c g a x,
+  accept t = true -> In (CNewGroup c g a) t -> In x t -> paints g x = true ->
+  exists y, In y t /\ call_group y = Some g.
+Proof.
+  intros t c g a x Hacc Hnew Hx Hp. unfold accept in Hacc.
+  destruct (run pinit t) as [st|] eqn:Hrun; [|discriminate].
+  apply andb_true_iff in Hacc. destruct Hacc as [_ Hcomp].
+  assert (Hd : dirty_inv t st).
+  { change t with ([] ++ t). eapply (run_inv dirty_inv dirty_inv_step); [|exact Hrun].
+    intros y k []. }
+  assert (Hc : created_inv t st).
+  { change t with ([] ++ t). eapply (run_inv created_inv created_inv_step); [|exact Hrun].
+    intros c0 g0 a0 []. }
+  destruct (Hc c g a Hnew) as [Hy|[c' Hpend]]; [exact Hy|]. exfalso.
+  unfold complete in Hcomp.
+  assert (Hin : In (g, c') (orphans st)).
+  { unfold orphans. apply filter_In. split; [exact Hpend|]. cbn [fst]. eapply Hd; eassumption. }
+  destruct (orphans st); [destruct Hin | discriminate].
+Qed.
+
+(* C16-style defect: painting goes on into a group that is never composited *)
+Example orphan_group_rejected :
+  accept [CAddPage 1 (K 4); CNewGroup 1 2 (K 4); CRect 2 (K 4); CPaint 2 4] = false.
+Proof. vm_compute. reflexivity. Qed.
+(* draw.go:247-258 on the unchanged tree: the group of an opacity < 1 box with a
+   singular transform is created and abandoned EMPTY: accepted *)
+Example empty_orphan_group_accepted :
+  accept [CAddPage 1 (K 4); CNewGroup 1 2 (K 4); CRect 1 (K 4); CPaint 1 4] = true.
+Proof. vm_compute. reflexivity. Qed.
+Example group_consumed_twice_rejected :
+  run pinit [CAddPage 1 (K 4); CNewGroup 1 2 (K 4); CDrawWithOpacity 1 2 (K 1); CDrawWithOpacity 1 2 (K 1)] = None.
+Proof. vm_compute. reflexivity. Qed.
+
 Print Assumptions run_app.
 Print Assumptions protocol_prefix_closed.
 Print Assumptions accepted_prefix_runs.
@@ -431,3 +642,5 @@ Print Assumptions path_before_paint.
 Print Assumptions font_before_text.
 Print Assumptions pages_counted.
 Print Assumptions accepted_all_finite.
+Print Assumptions group_before_consume.
+Print Assumptions accepted_painted_groups_consumed.
